@@ -685,14 +685,15 @@ class Engine:
         saved_entry = getattr(st, 'entry_env', None)
         try:
             st.entry_env = dict(env)
+            # old() in the callee's clauses (lets included) is the state at the call
+            pre = st.snapshot()
+            st.old = pre
             for c in cu.of('let'):
                 st.ghost['names'][ast.literal_eval(c.args[0])] = it.eval(c.args[1])
             for c in cu.of('requires'):
                 for a in c.args:
                     g = it.gtruth(a)
                     st.oblige('%s.pre(%s)' % (self.unit.name, cu.name), 'pre', g, info={'clause_line': c.line})
-            pre = st.snapshot()
-            st.old = pre
             # exceptional exits
             whens = []
             for c in cu.of('raises'):
